@@ -296,6 +296,29 @@ class Resource(Entity):
 
         return None
 
+    def set_capacity(self, capacity: int | float) -> None:
+        """Change the total capacity while grants may be outstanding.
+
+        Capacity already granted stays with its holders: ``available`` moves by
+        the same amount as the capacity, so ``available == capacity - held``
+        keeps holding. After a reduction below what is currently held,
+        ``available`` is negative until enough grants are released, and new
+        acquirers wait. After an increase, queued waiters are served.
+
+        Args:
+            capacity: The new total capacity (must be > 0).
+
+        Raises:
+            ValueError: If capacity is not positive.
+        """
+        if capacity <= 0:
+            raise ValueError(f"capacity must be > 0, got {capacity}")
+        delta = capacity - self._capacity
+        self._capacity = capacity
+        self._available += delta
+        if delta > 0:
+            self._wake_waiters()
+
     def _do_release(self, amount: int | float) -> None:
         """Internal: return capacity and wake eligible waiters.
 
